@@ -15,11 +15,12 @@ from .astutil import dotted, unparse
 
 
 class Unk:
-    """Unknown value."""
-    __slots__ = ('tag',)
+    """Unknown value (notnone: known not to be None, e.g. a token)."""
+    __slots__ = ('tag', 'notnone')
 
-    def __init__(self, tag='?'):
+    def __init__(self, tag='?', notnone=False):
         self.tag = tag
+        self.notnone = notnone
 
     def __repr__(self):
         return f'Unk({self.tag})'
@@ -253,7 +254,7 @@ class Interp:
             # conversion of unknown text: succeeds or raises ValueError
             if self.oracle.choose(2) == 1:
                 raise Raised('ValueError', 'invalid literal', node)
-            return Unk('number')
+            return Unk('number', True)
         if isinstance(f, AbsObj):
             return f.call_(args, kwargs, self)
         if is_unk(f):
@@ -264,7 +265,13 @@ class Interp:
             except (Raised, PathEnd, Unmodelled, _Ret, _Brk, _Cont):
                 raise
             except Exception as e:      # builtin applied to abstract data
-                if any(is_unk(a) for a in args):
+                def has_unk(x, d=0):
+                    if is_unk(x) or isinstance(x, AbsObj):
+                        return True
+                    if d < 3 and isinstance(x, (list, tuple, set)):
+                        return any(has_unk(y, d + 1) for y in x)
+                    return False
+                if any(has_unk(a) for a in args):
                     return Unk('builtin')
                 raise Raised(type(e).__name__, str(e), node)
         raise Unmodelled(f'call of {f!r}')
@@ -620,7 +627,7 @@ class Interp:
         return tuple(self.ev_List(e, env))
 
     def ev_Set(self, e, env):
-        return [self.eval(x, env) for x in e.elts]
+        return set(self.eval(x, env) for x in e.elts)
 
     def ev_Dict(self, e, env):
         out = {}
@@ -702,6 +709,8 @@ class Interp:
     def compare(self, op, l, r, node=None):
         if isinstance(op, (ast.Is, ast.IsNot)):
             if r is None or l is None:
+                if (is_unk(l) and l.notnone) or (is_unk(r) and r.notnone):
+                    return isinstance(op, ast.IsNot)
                 if is_unk(l) or is_unk(r):
                     return Unk('is')
                 if getattr(l, 'maybe_none', False) or \
@@ -972,10 +981,11 @@ BUILTINS = {
     'getattr': _b_getattr, 'hasattr': _b_hasattr,
     'enumerate': lambda x, start=0: list(enumerate(_b_list(x), start)),
     'zip': lambda *a: list(zip(*[_b_list(x) for x in a])),
-    'str': lambda x='': Unk('str') if is_unk(x) or isinstance(x, AbsObj)
-    else str(x),
-    'int': lambda x=0, *a: Unk('int') if is_unk(x) else int(x, *a),
-    'float': lambda x=0: Unk('float') if is_unk(x) else float(x),
+    'str': lambda x='': Unk('str', True) if is_unk(x) or
+    isinstance(x, AbsObj) else str(x),
+    'int': lambda x=0, *a, **k: Unk('int', True) if is_unk(x) or any(
+        is_unk(y) for y in list(a) + list(k.values())) else int(x, *a, **k),
+    'float': lambda x=0: Unk('float', True) if is_unk(x) else float(x),
     'bool': lambda x=False: Unk('bool') if is_unk(x) else bool(x),
     'abs': lambda x: Unk('abs') if is_unk(x) else abs(x),
     'round': lambda x, *a: Unk('round') if is_unk(x) else round(x, *a),
@@ -989,7 +999,7 @@ BUILTINS = {
     'bytes': lambda *a: Unk('bytes'),
     'object': lambda: Sentinel(),
     'dict': lambda *a, **k: dict(*a, **k),
-    'set': lambda x=(): _b_list(x),
+    'set': lambda x=(): set(_b_list(x)),
     'type': lambda x: x.type_() if isinstance(x, AbsObj) and
     hasattr(x, 'type_') else Unk('type'),
     'id': lambda x: Unk('id'),
@@ -1021,7 +1031,7 @@ class BuiltinType(AbsObj):
         if is_unk(x):
             return Unk('isinstance')
         if isinstance(x, AbsObj):
-            return False
+            return getattr(x, 'pytype_', None) is self.pytype
         if self.pytype is int and isinstance(x, bool):
             return True
         return isinstance(x, self.pytype)
